@@ -373,4 +373,51 @@ example : ((runFrom { cmp := .gt }
      .connect .A, .write .A, .hs 0, .kcmf 0, .turn1 .A]).link? 0).map (fun k => (k.kl, k.qa)) = some (true, [.open_ 0]) := by
   decide +kernel
 
+/-! ## the transit relay (`absR`)
+
+`ReachP absR` = every state reachable by any interleaving of the `absK` events (at most 2 links at a time) in
+a network where ONE side was given `transit_relay_location` and direct dialling works in one direction or in
+NONE.  The configured side's Connector publishes the relay hint in EVERY generation (`Connector.start`) and
+dials the relay itself; the peer dials it when its Manager hands that hint to its current Connector; the
+relay joins the two connections that wait there (both ends are then outbound: each side's
+`stop_pending_connections` closes its own).  The proviso (`killOK`) counts the relay path as a candidate only
+while both legs are still possible — a leg through a hint counts from the moment the hint of that
+generation is SENT. -/
+
+/-- **relay_safe**: with a relay, every enabled step from every reachable state raises nothing but the two
+    classified NoTransitions and keeps the invariant (one selected connection per side, follower only on a
+    confirmed link, roles). -/
+theorem relay_safe (s : Sys) (hr : ReachP absR s) (e : Event) (he : enabledP absR s e = true) :
+    (isFailure (step s e).2 = true → isStoppedAccept (step s e).2 = true ∨ isStoppedCandidate (step s e).2 = true) ∧
+    inv (step s e).1 = true := by
+  have := Certs.reachR_safe s hr e he
+  unfold safeStep at this
+  simp only [Bool.and_eq_true, Bool.or_eq_true, Bool.not_eq_true'] at this
+  refine ⟨fun hf => ?_, this.2⟩
+  rcases this.1 with (h | h) | h
+  · rw [hf] at h; exact absurd h (by simp)
+  · exact Or.inl h
+  · exact Or.inr h
+
+/-- **reconverge_via_relay**: from every such state — in particular in generation 2, 3, … when no direct
+    path exists at all — a cooperative continuation reaches CONNECTED/CONNECTED on one link.  It would be
+    false if the relay hint were published in the first generation only. -/
+theorem reconverge_via_relay (s : Sys) (hr : ReachP absR s) : CanConvergeP absR s :=
+  Certs.reachR_converges s hr
+
+/-- non-vacuity: A (leader) has the relay, nobody can dial directly; first connection through the relay, lost,
+    noticed by the leader first; both are CONNECTING in generation 2 and the relay hint is on its way AGAIN -/
+def afterLossRelayOnly : Sys :=
+  runFrom { cmp := .gt, relay := some .A, ra := false, rb := false }
+    [.key .A, .key .B, .vers .A, .vers .B, .dilate .A, .dilate .B, .deliver .A, .deliver .B, .deliver .B, .deliver .B,
+     .connect .A, .connect .B, .connect .B, .hs 0, .kcmf 0, .turn1 .A, .kcml 0, .turn1 .B, .lose .A 0, .turn1 .A,
+     .deliver .B, .lose .B 0, .turn1 .B, .deliver .A, .deliver .A]
+
+example : ReachP absR afterLossRelayOnly := reach_run _ (ReachP.init (by decide +kernel)) _ (by decide +kernel)
+example : afterLossRelayOnly.a.mgr = .CONNECTING ∧ afterLossRelayOnly.b.mgr = .CONNECTING ∧
+    afterLossRelayOnly.ab = [.hints true, .rhints true] ∧ afterLossRelayOnly.a.att = [.relay] ∧
+    afterLossRelayOnly.links = [] := by decide +kernel
+example : CanConvergeP absR afterLossRelayOnly :=
+  reconverge_via_relay _ (reach_run _ (ReachP.init (by decide +kernel)) _ (by decide +kernel))
+
 end WV.Props.C11
